@@ -196,9 +196,9 @@ class StarTreeTensorState(StarTreeTensorNetwork,TreeTensorNetworkState):
         for i in range(num_chains):
             for j in range(chain_length):
                 if j == chain_length - 1:
-                    tensor = local_state.reshape(1,2)
+                    tensor = local_state.reshape(1,dimension)
                 else:
-                    tensor = local_state.reshape((1,1,2))
+                    tensor = local_state.reshape((1,1,dimension))
                 state.add_chain_node(tensor,i)
         return state
 
